@@ -380,11 +380,13 @@ func vbC12Main(shard, nshards int, tier string) {
 					tr := bld.WithResponseSizeLimit(uint(limit)).Build()
 					roomy := bld.WithResponseSizeLimit(uint(4*R + 64)).Build()
 					NewFHTTPTransportBuilder(&http.Client{Transport: rt}, "http://x/frugal").WithRequestHeaders(vbSharedHTTPHeaders).Build()
-					cl := NewFStandardClient(NewFServiceProvider(tr, pf))
-					got := vbErrType(cl.Call(vbNewCtx(), "big", small, &vbShape{}))
+					// (the roomy transport goes first: nothing may sit between a refused response and the
+					// follow-up requests further down)
 					if g2 := vbErrType(NewFStandardClient(NewFServiceProvider(roomy, pf)).Call(vbNewCtx(), "big", small, &vbShape{})); g2 != "ok" {
 						res.fail("C12/response-within-limit-rejected/http/"+proto+"/"+shape, fmt.Sprintf("%s: a second transport of the same builder with limit %d: %s", desc, 4*R+64, g2))
 					}
+					cl := NewFStandardClient(NewFServiceProvider(tr, pf))
+					got := vbErrType(cl.Call(vbNewCtx(), "big", small, &vbShape{}))
 					switch {
 					case R > limit && got != "RESPONSE_TOO_LARGE":
 						res.fail("C12/response-limit-not-reported/http/"+proto+"/"+shape, desc+": caller saw "+got)
